@@ -371,3 +371,7 @@ CORPUS += [
     V("C06", "mtvrp-checker-waiver-for-every-route-end", _MTE7, _WAIVE, '                | (next_node == 0)', "C06"),
     V("C06", "eq-mtvrp-checker-waiver-commuted", _MTE7, _WAIVE, '                | ((next_node == 0) & td["open_route"].squeeze(-1))', None),
 ]
+CORPUS += [
+    V("C06", "sdvrp-final-assert-includes-the-depot-column", _SD, "assert (demands[:, 1:] == 0).all()", "assert (demands == 0).all()", "C06.q"),
+    V("C06", "eq-sdvrp-final-assert-ellipsis", _SD, "assert (demands[:, 1:] == 0).all()", "assert (demands[..., 1:] == 0).all()", None),
+]
